@@ -322,8 +322,15 @@ func runC11Phase(rec *vkit.Recorder, c *c11Case, spec *Spec, st *c11State) (vs [
 		if gj.HTTPClientConfig.ProxyURL.URL != nil {
 			gp = gj.HTTPClientConfig.ProxyURL.String()
 		}
-		if gp != c.ProxyURL {
-			add("C11/proxy-url", "job %q proxy %q, want %q", jn, gp, c.ProxyURL)
+		wantProxy := c.ProxyURL
+		if wantProxy == "" {
+			// no proxy to inject (a sidecar started with --inject.proxy=""): the job's own setting stays
+			if oj.HTTPClientConfig.ProxyURL.URL != nil {
+				wantProxy = oj.HTTPClientConfig.ProxyURL.String()
+			}
+		}
+		if gp != wantProxy {
+			add("C11/proxy-url", "job %q proxy %q, want %q", jn, gp, wantProxy)
 		}
 		if gj.HTTPClientConfig.BasicAuth != nil {
 			add("C11/basic-auth-kept", "job %q keeps basic_auth", jn)
